@@ -1756,4 +1756,53 @@ class C19(Prop):
         pass
 
 
-ALL = {c.id: c for c in [C01, C02, C03, C04, C05, C06, C07, C08, C09, C10, C11, C12, C13, C14, C15, C16, C17, C18, C19]}
+class C20(Prop):
+    id = "C20"
+    streams = [Stream(f"http-{k}", "http-mix", quick=250, thorough=20000, rtol=1e-12,
+                      tags={"ST", "J", "NB", "PANIC", "REJECT-ADMISSION", "ok", "reset", "bad-op"}) for k in ("uist", "jura")]
+    determined = True
+    determined_why = ("the property fixes every HTTP response: status 400 exactly where the in-process call reports an unknown backtest or "
+                      "dataset, otherwise the JSON encoding of the in-process result")
+    rule = ("random request sequences over all routes of both services (init, fetch_quotes, insert_order, delete_order, tick, info, "
+            "now) through an in-memory actix test service, next to a twin AppState driven in-process with the same calls; known and "
+            "unknown backtests and datasets, all order variants of both exchanges (Jura: constructors and deserialised orders, "
+            "decimal strings in three spellings), prices off the dyadic grid too; non-trivial = the case has a 200 tick with a fill "
+            "or an admitted order, a 400 answer, and a fetch_quotes answered 200")
+    level_text = ("Theorems C20.* (Lean 4), for any exchange in the server model with its wire format (instantiated for Uist and Jura): "
+                  "for every request sequence the server behind the handlers goes through exactly the states of the in-process calls; "
+                  "status 400 iff the in-process call reports unknown backtest/dataset; every 200 body is the serde-layout encoding of "
+                  "exactly the in-process result; decode(encode x) = x for orders, trades, fills and quotes of both exchanges. Tied to "
+                  "the real services by comparing status and canonical JSON of every response with the model's, and by an "
+                  "implementation-only comparison of the decoded HTTP result with a twin AppState driven in-process.")
+    level_note = "Partial: JSON text (ryu, serde_json number parsing) and actix extraction are exercised, not modelled; numbers compared at 1e-12 relative as the property states"
+    technique = "Lean 4 per-handler refinement lemmas lifted to request sequences by induction + codec round-trip theorems over a JSON AST + response-level correspondence + twin-server comparison"
+    design_ref = "DESIGN.md section 8, C20"
+    assumptions = ["non-empty datasets (init unwraps the first date: an empty dataset makes the handler panic and poisons the shared Mutex; excluded)"]
+
+    def nontrivial(self, stream, annot, impl):
+        tick = bad = fetch = False
+        for op, out in zip(annot, impl):
+            s = sections(out)
+            if "ST" not in s:
+                continue
+            if op.startswith("TICK") and s["ST"] == ["200"] and ("k:symbol" in out or "k:asset" in out):
+                tick = True
+            bad |= s["ST"] == ["400"]
+            fetch |= op.startswith("FETCH") and s["ST"] == ["200"]
+        return tick and bad and fetch
+
+    def monitor(self, stream, annot, impl):
+        for k, (op, out) in enumerate(zip(annot, impl)):
+            s = sections(out)
+            if s.get("EQ") == ["false"]:
+                yield (k, "http-result-equals-in-process-result", f"{op.split(' A ')[0]}: the decoded HTTP response differs from the same call made in-process: {out[:300]}")
+                return
+            if s.get("SEQ") == ["false"]:
+                yield (k, "round-trip-keeps-meaning", f"{op}: after the request the server state differs from the in-process twin's")
+                return
+
+    def __init__(self):
+        pass
+
+
+ALL = {c.id: c for c in [C01, C02, C03, C04, C05, C06, C07, C08, C09, C10, C11, C12, C13, C14, C15, C16, C17, C18, C19, C20]}
